@@ -59,7 +59,9 @@ CHECKS = {
          "and byte offsets, mutated, empty, binary, foreign content; load_one and load_many; explicit and name-derived format) "
          "run under a wall-clock alarm and an address-space limit through the tracing open shim, and every trace (open, yields "
          "with a shape-consistency verdict, close, outcome class, message names file, line number <= lines read, descriptor "
-         "closed) is validated against the protocol by TLC.",
+         "closed) is validated against the protocol by TLC. The line cursor all readers share (LineIter.tla: push-back stack, "
+         "reported line number; LinenoLaw, DeliversInOrder) is model-checked and every operation sequence up to depth 5 plus "
+         "random walks on the real LineIterator are validated against it.",
     note="frame kinds of arbitrary content are inferred from observed yields; shape consistency is computed from the data model only; termination is a 40 s alarm per load",
     technique="TLA+ protocol model (ApiLoad.tla) checked with TLC + trace validation of real load_one/load_many executions on truncated/mutated corpus files"),
  "C17": dict(
